@@ -375,6 +375,25 @@ func hostileDesigns() []DCase {
 			}
 		}
 	}
+	// Tag: naming an attribute the result lacks is rejected since the repair of expr/http_endpoint.go
+	// ("Tag attribute %q not found in result."); were it accepted again, `res.Zzz undefined` comes back
+	for _, tc := range []struct {
+		name string
+		res  dg.Type
+		tag  string
+	}{
+		{"tag_missing_attribute", dg.Obj(dg.F("a", dg.Prim("String"))), "zzz"},
+		{"tag_missing_attribute_user_type", dg.Ref("UObj"), "zzz"},
+		{"tag_on_string_attribute", dg.Obj(dg.F("a", dg.Prim("String")), dg.F("b", dg.Prim("Int"))), "a"},
+		{"tag_on_required_string_attribute", dg.Obj(dg.Req("a", dg.Prim("String"))), "a"},
+		{"tag_on_user_type_attribute", dg.Ref("UObj"), "a"},
+	} {
+		m := &dg.Method{Name: fmt.Sprintf("m%d", idx), Result: pa(dg.A(tc.res)),
+			HTTP: &dg.HTTPMap{Routes: []dg.Route{{Verb: "GET", Path: fmt.Sprintf("/h%d", idx)}},
+				Responses: []dg.Response{{Status: 202, Tag: []string{tc.tag, "v"}}, {Status: 200}}}}
+		out = append(out, hostileSingle("h_"+tc.name, m))
+		idx++
+	}
 	ms, names := credentialMethods(idx)
 	for i, m := range ms {
 		out = append(out, hostileSingle("h_"+names[i], m))
